@@ -244,7 +244,7 @@ def run(ctx):
     ctx.floor("C16/DT-END", 60)
 
 
-SHAPES_DT = ["absent", "date", "datetime", "list", "text"]
+SHAPES_DT = ["absent", "date", "datetime", "list", "text", "date-sub", "datetime-sub"]
 SHAPES_DUR = ["absent", "days", "secs", "daystime", "zero", "list", "text", "days-parsed"]
 
 
@@ -258,6 +258,12 @@ def stored(it, m, shape, sym):
         return it.call(vddd, [mk_dt("date", sym)], {})
     if shape == "datetime":
         return it.call(vddd, [mk_dt("naive", sym)], {})
+    if shape in ("date-sub", "datetime-sub"):
+        # an instance of a subclass of date / datetime (freezegun, pendulum, application
+        # types): a date is whatever isinstance says, not what type() is
+        d = mk_dt("date" if shape == "date-sub" else "naive", sym)
+        d.sub = True
+        return it.call(vddd, [d], {})
     if shape == "days":
         return it.call(vdur, [mk_td(False, sym)], {})
     if shape == "secs":
@@ -278,6 +284,7 @@ def stored(it, m, shape, sym):
 
 def oracle(s, e, d):
     """Expected (start, end, duration) outcomes from the property statement."""
+    s, e = ({"date-sub": "date", "datetime-sub": "datetime"}.get(x, x) for x in (s, e))
     bad_shape = any(x in ("list", "text") for x in (s, e, d))
     dd = "days" if d in ("days-parsed", "zero") else d
     invalid = bad_shape or (e != "absent" and dd != "absent") or \
